@@ -1036,6 +1036,9 @@ META_CMDS = [
     {"c": "rollover", "name": "t1", "leader": 2, "count": 3}, {"c": "create", "name": "t2", "leader": 2},
     {"c": "upsert", "node": 2, "addr": "10.0.0.2:6002"}, {"c": "rollover", "name": "t1", "leader": 1, "count": 0},
     {"c": "create", "name": "t1", "leader": 3}, {"c": "rollover", "name": "t2", "leader": 3, "count": 7},
+    # overwrites: install must REPLACE the follower's state, a merge keeps the stale value
+    {"c": "upsert", "node": 2, "addr": "10.0.0.9:6002"}, {"c": "upsert", "node": 1, "addr": "10.0.0.7:6001"},
+    {"c": "upsert", "node": 2, "addr": "10.0.0.2:6002"},
 ]
 KV_CMDS = [{"c": "set", "key": "a", "val": "1"}, {"c": "set", "key": "b", "val": "2"}, {"c": "delete", "key": "a"},
            {"c": "set", "key": "a", "val": "3"}, {"c": "get", "key": "b"}]
@@ -1158,6 +1161,9 @@ def sm_judge(case, res):
                 continue
             if r.get("res") != "ok":
                 return dict({"kind": "install_failed", "err": (r.get("err") or "")[:120]}, **attrs), drift
+            if r.get("sender_current_is_built") is False:
+                # what the sender hands out at install time is not the snapshot it built (state or meta moved on)
+                return dict({"kind": "sender_snapshot_not_the_built_one"}, **attrs), drift
             got, want = views[op["m"]], src["view"]
             if got["app"] != want["app"]:
                 return dict({"kind": "app_state_differs_after_install"}, **attrs), drift
